@@ -195,6 +195,10 @@ def run_config(chk, config):
         hofs = [e for e in evs if e[0] == "hof"]
         colls = [e for e in evs if e[0] == "collect"]
         pushes = [e for e in evs if e[0] == "push"]
+        # the result vector and the lists made from it keep wire order: no element is taken out by swapping
+        for e in evs:
+            if e[0] == "vec_take" and e[2] == "swap_remove" and not e[4]:
+                probs.append("a list of AVP results is reordered on the way (Vec::swap_remove of an element that is not the last, %s)" % (e[5].get("ln"),))
         if vi == 0:
             n_ok += 1
             cm = payload
@@ -284,6 +288,7 @@ def run_config(chk, config):
         ("first AVP is a Message Type or the body is empty (ZLB accepted)", lambda p: "first AVP" in p, n_zlb >= 1),
         ("accepted list holds every decoded AVP", lambda p: "accepted AVP list" in p, n_ok >= 1),
         ("rejection returns the complete, unaltered error list", lambda p: "error list" in p, n_listerr >= 1),
+        ("lists keep wire order", lambda p: "reordered" in p, n_ok >= 1),
     ]
     seen = set()
     for cname, pred, floor in tclauses:
@@ -303,7 +308,11 @@ def run(chk):
     # octet) says it is hidden (C05's header rule)
     from framework import Sub
     import rules.c05 as c05
+    # "one error per undecodable record ... stops only at an unusable length": each record is judged on exactly its own
+    # octets, against what is really left of the body (C05's record isolation)
     Sub(chk, "via C05 | ", lambda k: k.startswith("avp-header-rules")).borrow(c05, "default", 1, "AVP header flag handling")
+    import rules.c08 as c08
+    Sub(chk, "via C08 | ", lambda k: k.startswith("avp-isolation")).borrow(c08, "default", 1, "record isolation in the greedy AVP reader")
     if chk.tier == "thorough":
         for cfg in ("debug", "release"):
             run_config(chk, cfg)
